@@ -192,6 +192,9 @@ class Engine:
         if r == z3.unknown:
             self.res.unknowns += 1
             return True          # explore it; sound (a later sat model is still a real model)
+        if r == z3.unsat:
+            # a pruned alternative: this is where an unsound solver answer would silently lose paths
+            self.second_opinion("prune@%d" % len(self.trace), c, "unsat", scale=0.25)
         return r == z3.sat
 
     # -- forking --------------------------------------------------------------------------------
@@ -305,10 +308,10 @@ class Engine:
             return None
         return self.solver.model()
 
-    def second_opinion(self, label, negated, verdict):
+    def second_opinion(self, label, negated, verdict, scale=1.0):
         """a deterministic sample of the obligation queries (path condition AND NOT property) is exported as SMT-LIB2
         and re-decided by cvc5; a contradiction between the two solvers is a harness error, never a pass"""
-        rate = XCHECK["rate"]
+        rate = XCHECK["rate"] * scale
         if rate <= 0:
             return
         import zlib as _z
